@@ -42,9 +42,50 @@ Theorem C05_decreasing_in_correlation :
     impact2 d T phi tqs tqp r2 < impact2 d T phi tqs tqp r1.
 Proof. exact impact2_decreasing_in_corr2. Qed.
 
+(* ---- on the code.  _impact_estimate and estimate_required_impact are regenerated from tbrmmdiagnostics.py on every run
+   (gen/Gen_Formulas.v) over abstract float operations and a square-root oracle; over the rationals, with any square-root
+   oracle that is exact on the two arguments it is applied to, the square of what the code computes is the model's
+   impact2 (so the theorems above are about the code's formula), and the code rejects exactly |corr| >= 1 *)
+From MM Require Import lib.Values gen.Gen_Formulas proofs.FormulasBridge.
+Theorem C05_translated_required_impact_is_model :
+  forall (vsqrt : Q -> Q) (d : list pt) T phi tqs tqp std_y corr,
+    let n := Z.of_nat (length d) in
+    sqrt_ok vsqrt (impact_arg T n phi) -> sqrt_ok vsqrt (inject_Z 1 - corr * corr) ->
+    std_y * std_y == Syy d / (nQ d - 2) ->
+    gen_estimate_required_impact QOps vsqrt T n phi tqs tqp std_y corr * gen_estimate_required_impact QOps vsqrt T n phi tqs tqp std_y corr
+    == impact2 d (inject_Z T) phi tqs tqp (corr * corr).
+Proof. exact gen_estimate_required_impact_squared. Qed.
+Theorem C05_translated_required_impact_calibrated :
+  forall (vsqrt : Q -> Q) (d : list pt) T phi tqs tqp std_y corr ubar,
+    let n := Z.of_nat (length d) in
+    sqrt_ok vsqrt (impact_arg T n phi) -> sqrt_ok vsqrt (inject_Z 1 - corr * corr) ->
+    std_y * std_y == Syy d / (nQ d - 2) -> corr * corr == corr2 d ->
+    ~ nQ d == 0 -> ~ Sxx d == 0 -> ~ Syy d == 0 -> ~ inject_Z T == 0 -> ~ nQ d - 1 == 0 -> ~ nQ d - 2 == 0 ->
+    (ubar - xbar d) * (ubar - xbar d) == phi * (nQ d + 1) * Sxx d / (nQ d * inject_Z T * (nQ d - 1)) ->
+    gen_estimate_required_impact QOps vsqrt T n phi tqs tqp std_y corr * gen_estimate_required_impact QOps vsqrt T n phi tqs tqp std_y corr
+    == (tqs + tqp) * (tqs + tqp) * var_at d (inject_Z T) ubar.
+Proof.
+  cbv zeta. intros vsqrt d T phi tqs tqp std_y corr ubar H1 H2 H3 Hc Hn Hx Hy HT Hn1 Hn2 Hu.
+  rewrite (gen_estimate_required_impact_squared vsqrt d T phi tqs tqp std_y corr H1 H2 H3).
+  unfold impact2, sigma2_of_corr. rewrite Hc.
+  exact (required_impact_calibrated d (inject_Z T) phi tqs tqp ubar Hn Hx Hy HT Hn1 Hn2 Hu).
+Qed.
+Theorem C05_translated_guard_rejects_exactly_unit_correlations :
+  forall corr, gen_required_impact_raises QOps corr = true <-> (corr <= -1 \/ 1 <= corr).
+Proof. exact gen_required_impact_raises_spec. Qed.
+
 Print Assumptions C05_sigma_is_residual_variance.
+Print Assumptions C05_translated_required_impact_is_model.
+Print Assumptions C05_translated_required_impact_calibrated.
 Print Assumptions C05_required_impact_calibrated.
 Print Assumptions C05_lift_is_recovered.
 Print Assumptions C05_scale_equivariant.
 Print Assumptions C05_shift_invariant.
 Print Assumptions C05_decreasing_in_correlation.
+
+(* the premises about the square-root oracle are satisfiable: n = 3, n_test = 3, phi = 3/2, corr = 3/5 *)
+Example C05_sqrt_oracle_exists :
+  let vsqrt := fun x : Q => if Qeq_bool x 1 then 1 else 4 # 5 in
+  sqrt_ok vsqrt (impact_arg 3 3 (3 # 2)) /\ sqrt_ok vsqrt (inject_Z 1 - (3 # 5) * (3 # 5)) /\
+  gen_estimate_required_impact QOps vsqrt 3 3 (3 # 2) 1 2 5 (3 # 5) == 36.
+Proof. cbv zeta. unfold sqrt_ok. repeat split; vm_compute; reflexivity. Qed.
